@@ -344,7 +344,7 @@ def parse_rvalue(s):
         if path and re.match(r'^[\w<\[(&]', path):
             return ('adt', path, [(str(k), parse_operand(p)) for k, p in
                                   enumerate(split_top(inner) if inner else [])], False)
-    if re.match(r'^[\w<:> ,\[\]&\'()]+$', s):
+    if re.match(r'^[\w<:> ,\[\]&\'()+]+$', s):
         # unit struct / unit variant
         return ('adt', s, [], False)
     return ('unsupported', s)
